@@ -403,27 +403,27 @@ func cmdCheck(args []string) int {
 		"wall_s":      round3(wall),
 		"violations":  len(violLines),
 		"coverage": map[string]any{
-			"obligations":          nProof,
-			"discharged":           nDischarged,
-			"checker_cmd":          "vf check " + pid + " --tier " + *tier + "  (VC generation over go/ssa of /repo's working tree; z3-new 5.1.0 | cvc5 1.0.x | z3 4.8.12 portfolio, per-obligation timeout " + strconv.Itoa(timeout) + "s)",
-			"trusted_base":         trustedBase,
+			"obligations":              nProof,
+			"discharged":               nDischarged,
+			"checker_cmd":              "vf check " + pid + " --tier " + *tier + "  (VC generation over go/ssa of /repo's working tree; z3-new 5.1.0 | cvc5 1.0.x | z3 4.8.12 portfolio, per-obligation timeout " + strconv.Itoa(timeout) + "s)",
+			"trusted_base":             trustedBase,
 			"functions_under_contract": funcs,
-			"bounded_obligations":  nBounded,
-			"bounded_discharged":   nBoundedOK,
-			"vacuity_probes":       nVac,
-			"vacuity_probes_ok":    nVacOK,
-			"backends":             backends,
-			"solver_seconds":       round3(solverTime),
-			"load_seconds":         round3(loadS),
-			"vcgen_seconds":        round3(genS),
-			"samples":              samples,
-			"obligation_records":   records,
-			"unmodelled_calls":     unm,
-			"undecided":            undecided,
-			"known_findings":       knownLines,
-			"deferred_preconditions": keys(deferred),
-			"contract_files":       relFiles(eng),
-			"explanation":          explanationFor(pid),
+			"bounded_obligations":      nBounded,
+			"bounded_discharged":       nBoundedOK,
+			"vacuity_probes":           nVac,
+			"vacuity_probes_ok":        nVacOK,
+			"backends":                 backends,
+			"solver_seconds":           round3(solverTime),
+			"load_seconds":             round3(loadS),
+			"vcgen_seconds":            round3(genS),
+			"samples":                  samples,
+			"obligation_records":       records,
+			"unmodelled_calls":         unm,
+			"undecided":                undecided,
+			"known_findings":           knownLines,
+			"deferred_preconditions":   keys(deferred),
+			"contract_files":           relFiles(eng),
+			"explanation":              explanationFor(pid),
 		},
 		"assumptions": asm,
 	}
